@@ -241,6 +241,38 @@ def returns_of(body):
     return [blk["i"] for blk in body.blocks if not blk["cleanup"] and blk["term"]["t"]["k"] == "return"]
 
 
+def receiver_local(body, t):
+    """the local collection a method is called on: chases `_t = &mut X` / `_t = &X` / copies in the calling block and before"""
+    if not t["args"]:
+        return None
+    a0 = t["args"][0]
+    pl = a0.get("move") or a0.get("copy")
+    seen = 0
+    while pl is not None and seen < 6:
+        seen += 1
+        if pl["p"]:
+            # (*x).field or *x: take the base local
+            l = pl["l"]
+        else:
+            l = pl["l"]
+        # find the single assignment to l
+        src = None
+        for blk in body.blocks:
+            for st in blk["stmts"]:
+                if st["k"] == "assign" and not st["p"]["p"] and st["p"]["l"] == l:
+                    r = st["r"]
+                    if r["k"] in ("ref", "rawptr"):
+                        src = r["p"]
+                    elif r["k"] == "use":
+                        src = r["o"].get("move") or r["o"].get("copy")
+        if src is None:
+            return l
+        if body.local_names.get(src["l"]) is not None and not [e for e in src["p"] if e["k"] != "deref"]:
+            return src["l"]
+        pl = src
+    return pl["l"] if pl is not None else None
+
+
 @prop("C19")
 def check_C19(A, R, tier):
     g = call_graph(A)
@@ -368,6 +400,97 @@ def check_C19(A, R, tier):
             R.ob("R19.2", "%s | a numeric limit that decides an error exit compares a constant-step counter with a size-scaled bound" % short(n),
                  okc, detail=why, site=A.site(cmpst))
     R.info["limit_comparisons"] = n_cmp
+    # R19.4: a worklist walk over the graph (take an element out of a local collection, put its neighbours in) remembers what it
+    # has visited; without that its work is bounded by the number of *paths*, which is exponential in the depth of layered graphs
+    n_walk = 0
+    for n in sorted(reach):
+        b = A.facts.bodies.get(n)
+        if b is None or b.kind == "Promoted" or b.derived:
+            continue
+        for h in sorted(set(h for (_, h) in b.back_edges())):
+            loop = b.natural_loop(h)
+            takes, puts, nbrs, marks = {}, {}, [], []
+            for bi in loop:
+                blk = b.blocks[bi]
+                if blk["cleanup"]:
+                    continue
+                t = blk["term"]["t"]
+                if t["k"] != "call":
+                    continue
+                gen = (M.callee_of(t) or ("",))[0]
+                recv = receiver_local(b, t)
+                if gen.endswith("Vec::<T, A>::pop") or gen.endswith("VecDeque::<T, A>::pop_front") or gen.endswith("VecDeque::<T, A>::pop_back") \
+                        or gen.endswith("impl [T]>::last_mut") or gen.endswith("impl [T]>::last"):
+                    takes.setdefault(recv, []).append(blk)
+                elif gen.endswith("Vec::<T, A>::push") or gen.endswith("VecDeque::<T, A>::push_back") or gen.endswith("VecDeque::<T, A>::push_front") \
+                        or gen.endswith("as std::iter::Extend<T>>::extend") or gen == "std::iter::Extend::extend":
+                    puts.setdefault(recv, []).append(blk)
+                elif gen.endswith("::neighbors_directed") or gen.endswith("GraphMap::<N, E, Ty>::neighbors") or gen.endswith("::edges_directed"):
+                    nbrs.append(blk)
+                elif gen.endswith("HashSet::<T, S, A>::insert") or gen.endswith("HashSet::<T, S, A>::contains") \
+                        or gen.endswith("HashMap::<K, V, S, A>::insert") or gen.endswith("HashMap::<K, V, S, A>::contains_key") \
+                        or gen.endswith("BTreeSet::<T, A>::insert") or gen.endswith("HashMap::<K, V, S, A>::entry"):
+                    marks.append(blk)
+                elif gen.endswith("IndexMut<I>>::index_mut") and "bool" in (b.locals[t["dest"]["l"]]["s"] if not t["dest"]["p"] else ""):
+                    marks.append(blk)
+            work = [l for l in takes if l is not None and l in puts]
+            if not work or not nbrs:
+                continue
+            # a *search* that stops at the first hit (a regular exit out of the middle of the loop) is not judged: how far it gets
+            # depends on invariants of the graph; an exhaustive walk (the loop ends only when the worklist is empty) is
+            hdr_exits = set()
+            for t_blk in [x for v_ in takes.values() for x in v_]:
+                hdr_exits.add(t_blk["i"])
+                hdr_exits.add(t_blk["term"]["t"]["t"])
+            errs_ = error_exit_blocks(A, b) | residual_blocks(b)
+            early = [(x, s_) for x in loop for s_ in b.succs(x) if s_ not in loop and x not in hdr_exits and s_ not in errs_
+                     and b.term(s_)["k"] != "unreachable"]
+            if early:
+                continue
+            n_walk += 1
+            R.ob("R19.4", "%s | worklist walk over graph neighbours (loop bb%d) | keeps a set of visited jobs" % (short(n), h), bool(marks),
+                 detail="every path to a job is walked separately: in a layered graph (each job depending on several jobs of the previous "
+                        "layer) the walk takes time exponential in the number of layers - a few dozen jobs are enough to hang the evaluation",
+                 site=takes[work[0]][0]["term"]["span"]["s"].split(": ")[0])
+    R.info["worklist_walks"] = n_walk
+    # R19.5: no constant cut-off on how much of a graph-sized collection is looked at
+    n_cut = 0
+    CUTS = ("std::iter::Iterator::take", "std::iter::Iterator::skip", "std::iter::Iterator::step_by", "std::iter::Iterator::nth",
+            "std::vec::Vec::<T, A>::truncate", "std::collections::VecDeque::<T, A>::truncate", "core::slice::<impl [T]>::chunks",
+            "core::slice::<impl [T]>::windows", "core::slice::<impl [T]>::split_at", "std::vec::Vec::<T, A>::split_off")
+    for n in sorted(reach):
+        b = A.facts.bodies.get(n)
+        if b is None or b.kind == "Promoted" or b.derived:
+            continue
+        for blk in b.blocks:
+            if blk["cleanup"]:
+                continue
+            t = blk["term"]["t"]
+            if t["k"] != "call" or blk["term"]["span"].get("exp"):
+                continue
+            gen = (M.callee_of(t) or ("",))[0]
+            if gen not in CUTS or len(t["args"]) < 2:
+                continue
+            a1 = t["args"][1]
+            cval = None
+            if "const" in a1 and "int" in a1:
+                cval = int(a1["int"], 16)
+            else:
+                pl = a1.get("copy") or a1.get("move")
+                if pl is not None and not pl["p"]:
+                    sl = backward_slice(b, pl["l"])
+                    if not sl["calls"] and not sl["places"] and not sl["params"] and len(sl["consts"]) >= 1:
+                        try:
+                            cval = max(int(str(c), 0) for c in sl["consts"] if c is not None and str(c).lstrip("-").isdigit())
+                        except ValueError:
+                            cval = None
+            if cval is None or cval <= 1:
+                continue        # first element / skip the head: structural idioms, not limits
+            n_cut += 1
+            R.ob("R19.5", "%s | %s(%d) | no constant cut-off on a collection whose size scales with the graph" % (short(n), gen.split("::")[-1], cval),
+                 False, detail="beyond %d elements the code behaves differently: an internal limit that only large graphs hit" % cval,
+                 site=blk["term"]["span"]["s"].split(": ")[0])
+    R.info["constant_cut_offs"] = n_cut
     R.explanation = ("Call graph (A7) over all %d crate-local bodies with resolved callees, closures and fn items: every strongly "
                      "connected component reachable from the public API is a native recursion whose depth is a path length of the "
                      "user's graph; plus a dataflow rule on every integer comparison that decides an error exit: its bound must "
